@@ -12,14 +12,17 @@ pub fn run(a: &Args) {
     let work = format!("{}/tmp", a.out);
     let ntargets = if a.tier == "thorough" { 4 } else { 1 };
     for _ in 0..ntargets {
-        let pages = [17u64, 1, 3];
-        let scen = Scenario { threads: vec![], lines: pages.iter().map(|p| format!("anon {p} rw- 1")).collect() };
+        // the last region holds nothing but 0xFF bytes (a word of all ones is also what a failing PTRACE_PEEKDATA returns)
+        let pages = [17u64, 1, 3, 2];
+        let mut scen = Scenario { threads: vec![], lines: pages.iter().map(|p| format!("anon {p} rw- 1")).collect() };
+        scen.lines.push("fill 3 255".into());
         let target = match Target::spawn(&scen, &work) { Ok(t) => t, Err(e) => { out.notes.push(format!("spawn failed: {e}")); continue; } };
         // the ptrace strategy needs the target to be our tracee
         let pid = nix::unistd::Pid::from_raw(target.pid);
         if nix::sys::ptrace::attach(pid).is_err() { out.notes.push("attach failed".into()); continue; }
         let _ = nix::sys::wait::waitpid(pid, Some(nix::sys::wait::WaitPidFlag::__WALL));
-        let regions: Vec<(u64, u64)> = (0..3).map(|i| (target.fact_hex(&format!("anon{i}")), pages[i] * 4096)).collect();
+        let regions: Vec<(u64, u64)> = (0..4).map(|i| (target.fact_hex(&format!("anon{i}")), pages[i] * 4096)).collect();
+        let ff_start = regions[3].0;
         // sanity of the harness's own pattern formula against an independent read
         if let Some(b) = read_mem(target.pid, regions[0].0, 64) { if b.iter().enumerate().any(|(i, x)| *x != pattern(regions[0].0 + i as u64)) { out.notes.push("pattern formula disagrees with target memory".into()); } }
         for _ in 0..a.n {
@@ -36,7 +39,11 @@ pub fn run(a: &Args) {
                 let r = quiet_catch(std::panic::AssertUnwindSafe(|| rd.read_to_vec(src as usize, std::num::NonZeroUsize::new(len as usize).unwrap())));
                 // long ranges are judged against the pattern formula directly (the extracted model walks unary
                 // offsets and is quadratic in the range length); everything up to a page goes through the model
-                let line = if len <= 4096 { let mut l = Line::new("c17"); l.u(st).u(start).u(rlen).u(off).u(len); l } else {
+                let line = if start == ff_start {
+                    let mut l = Line::new("const"); let avail = (rlen - off).min(len);
+                    if avail == len || (st == 0 && avail > 0) { l.u(0); for _ in 0..avail { l.u(0xff); } } else { l.u(1); }
+                    out.count("all_ones_region.judged_by_oracle"); l }
+                  else if len <= 4096 { let mut l = Line::new("c17"); l.u(st).u(start).u(rlen).u(off).u(len); l } else {
                     let mut l = Line::new("const");
                     let avail = (rlen - off).min(len);
                     if avail == len || (st == 0 && avail > 0) { l.u(0); for i in 0..avail { l.u(pattern(src + i) as u64); } } else { l.u(1); }
